@@ -1,5 +1,6 @@
 import Lean.Data.Json
 import Emboss.Model.Constraints
+import Emboss.Model.ConstraintsLoc
 import Driver.Util
 open Emboss.Constraints Driver Lean
 
@@ -8,6 +9,9 @@ Line protocol of `model_c14`:
 
   CHECK <json program>      → `errors k1;k2;…` (kinds of `check`, IN ORDER) or `errors` if none
   BYTEORDER <json program>  → `bo <typeid>.<field>=<byte order|->;…` (`fieldByteOrders`)
+  FIELDLOC <json program>   → `fieldloc <typeid>.<field>:<kind>@(field|attr<i>|inherited);…` (`verifyFieldsL`)
+  ATTRS <scope> <json attribute list> → `located kind@index.part[+index of the noted attribute];…`
+                              (`checkAttrListL`; scope = module|struct|bits|enum|external|field|vfield|value)
   REQ <json sexpr> <size|none> → `true` / `false`      (`reqMet`)
   RESERVED <word>           → `true` / `false`
   BACKENDS <json string>    → `true` / `false`         (`validBackEnds`)
@@ -272,6 +276,37 @@ def handle (line : String) : String :=
     | .ok p =>
       let ks := (fieldByteOrders p).map showBO
       if ks.isEmpty then "bo" else "bo " ++ ";".intercalate ks
+    | .error _ => "bad-op"
+  | "ATTRS" =>
+    let (scope, js) := splitFirst rest
+    let specs : Option (List (String × Bool)) :=
+      match scope with
+      | "module" => some Emboss.Generated.AttrTable.moduleAttrs
+      | "struct" => some Emboss.Generated.AttrTable.structAttrs
+      | "bits" => some Emboss.Generated.AttrTable.bitsAttrs
+      | "enum" => some Emboss.Generated.AttrTable.enumAttrs
+      | "external" => some Emboss.Generated.AttrTable.externalAttrs
+      | "field" => some Emboss.Generated.AttrTable.physicalFieldAttrs
+      | "vfield" => some Emboss.Generated.AttrTable.virtualFieldAttrs
+      | "value" => some Emboss.Generated.AttrTable.enumValueAttrs
+      | _ => none
+    match specs, Json.parse js >>= (fun j => do let l ← arr j; l.mapM attrOfJson) with
+    | some specs, .ok as =>
+      let showPart : Part → String
+        | .whole => "whole" | .name => "name" | .value => "value"
+      let ks := (checkAttrListL specs [] 0 as).map fun e =>
+        showEK e.k ++ "@" ++ toString e.idx ++ "." ++ showPart e.part ++
+          (match e.note with | some j => "+" ++ toString j | none => "")
+      if ks.isEmpty then "located" else "located " ++ ";".intercalate ks
+    | _, _ => "bad-op"
+  | "FIELDLOC" =>
+    match Json.parse rest >>= programOfJson with
+    | .ok p =>
+      let showAt : FieldAt → String
+        | .field => "field" | .attrValue i => "attr" ++ toString i | .inherited => "inherited"
+      let ks := (verifyFieldsL p).map fun e =>
+        toString e.1 ++ "." ++ e.2.1 ++ ":" ++ showEK e.2.2.1 ++ "@" ++ showAt e.2.2.2
+      if ks.isEmpty then "fieldloc" else "fieldloc " ++ ";".intercalate ks
     | .error _ => "bad-op"
   | "REQ" =>
     let (sz, js) := splitFirst rest
